@@ -228,6 +228,21 @@ func totalParse(c *h.Ctx, kind, text string) (ms []*ast.DataMessage, outcome str
 	if len(errs) > 0 {
 		return nil, "rejected"
 	}
+	// "if none is reported every message in the input is returned": an input that is accepted with k
+	// messages was consumed to its end, so the same input followed by one more message yields k+1
+	// (an input whose processing silently stopped half-way yields k again)
+	tail := "\nS127F255 W H->E appended\n."
+	if strings.Contains(text, "\"") && strings.Count(text, "\"")%2 == 1 {
+		tail = "" // cannot happen for an accepted text; keep the probe well-formed anyway
+	}
+	if tail != "" {
+		ms2, errs2, _, pan2 := smlRun(text + tail)
+		c.Ops(1)
+		if pan2 == "" && (len(errs2) > 0 || len(ms2) != len(ms)+1 || ms2[len(ms2)-1].Name() != "appended") {
+			c.Fail("accepted-input-not-consumed-to-its-end", in, fmt.Sprintf("accepted with %d messages and no error, but with one more message appended: %d messages, errors %q", len(ms), len(ms2), errs2))
+			return nil, "bad"
+		}
+	}
 	return ms, fmt.Sprintf("accepted-%d", len(ms))
 }
 
